@@ -15,7 +15,7 @@ Definition run_leak (strong : bool) (j : json) : text :=
   | Ok st =>
       let root := st_root st in
       let R := static_diverts root in
-      T "load=ok nodes=" ++ show_N (N.of_nat (length (story_nodes root))) ++
+      T "load=ok nodes=" ++ show_N (N.of_nat (length (cont_positions root []))) ++
       T " diverts=" ++ show_N (N.of_nat (length R)) ++
       T " cached=" ++ show_N (N.of_nat (length (cache_edges root R))) ++
       T " wf=" ++ b01 (wf_cacheb root R) ++
